@@ -75,10 +75,32 @@ def never_twice(c, sp, v):
     return v
 
 
+def notwice_selftest(ctx):
+    """The judge of recorded traces (driver/d_static.ml: notwice_judge) on four hand-made traces: the original DS-PR
+    trace of the chain a0->a1->a2 queried on a0 (ok), the same trace as the seeded change `first discard adds no
+    blocking clause` produces it (the grounded set handed back by the solver: bad, examined twice), an answer that
+    is not a complete set (bad, not a base set), a set answered twice later in the search (bad)."""
+    d = build_driver(ctx)
+    f = os.path.join(DRIVER, "tests", "notwice_selftest.cases")
+    if not d or not os.path.exists(f):
+        return
+    rc, out = sh("%s static %s --thr 32" % (d, f), timeout=120)
+    got = [l[4:] for l in out.splitlines() if l.startswith("OUT notwice")]
+    exp = ["notwice ok 1", "notwice bad session 1 candidate {0,2} examined twice",
+           "notwice bad session 1 candidate {0,1,2} is not a base set", "notwice bad session 1 candidate {0} examined twice"]
+    ctx.cov["notwice_selftest"] = got
+    if rc != 0 or got != exp:
+        ctx.violation("the judge `notwice` of recorded traces no longer detects the hand-made traces of driver/tests/notwice_selftest.cases: got %s expected %s" % (got, exp),
+                      open(f).read(), found_input=False)
+
+
 def main(ctx):
     total = 30000 if ctx.thorough else 3000
     static_check(
         ctx, "static", total, extra="--nopre", judge=judge, extra_stats=extra, spec_opts="--bound", extra_props=("C18dyn", "C18log", "C18pr"), search_judge=never_twice,
         more_runs=[("static", 0, "--nopre --exhaustive 3")],
-        rule="all 18 library problems x encoders x certificate flag on exhaustive small and generated frameworks; the number of SAT calls per session (= per connected component) and in total is compared with the bound of the property computed by brute force per component (|base| = number of conflict-free / admissible / complete sets of the encoder in use, |PR| = number of preferred extensions): PR <= |base|+|PR|+1, ID <= 2|base|+|PR|+2, SST/STG <= (n+2)|base|+3, CO/ST <= 2; traces replayed on Model.Solvers (same call count by construction of the replay)",
+        rule="all 18 library problems x encoders x certificate flag on exhaustive small and generated frameworks; the number of SAT calls per session (= per connected component) and in total is compared with the bound of the property computed by brute force per component (|base| = number of conflict-free / admissible / complete sets of the encoder in use, |PR| = number of preferred extensions): PR <= |base|+|PR|+1, ID <= 2|base|+|PR|+2, SST/STG <= (n+2)|base|+3, CO/ST <= 2; traces replayed on Model.Solvers (same call count by construction of the replay); for every PR and ID case the RECORDED trace of the implementation is judged by the driver (`notwice`): per session = connected component (components from the extracted Graph functions, as query_comps) and per search phase (one for PR; two for ID, told apart by the search selector), the start candidate (grounded extension of the component, extracted Graph.grounded) followed by the sets decoded from the recorded Sat models (extracted Encoders.assignment_to_extension) are pairwise different as sets, and every decoded set is a base set of the component (AF.baseb, components of <= 10 arguments); counts in distribution.notwice",
+        finish=False,
     )
+    notwice_selftest(ctx)
+    ctx.finish()
